@@ -201,6 +201,10 @@ pub mod prelude {
         ensures encode_utf8(s@).len() <= usize::MAX,
     {}
 
+    /// A-std-string: `String::len` is the length of the UTF-8 encoding in bytes
+    pub assume_specification [std::string::String::len] (s: &String) -> (r: usize)
+        ensures r == encode_utf8(s@).len();
+
     /// A-std-string: `String: Index<I>` is `str: Index<I>` on `as_str()` (library/alloc/src/string.rs)
     pub uninterp spec fn string_as_str(s: &String) -> &str;
     #[verifier::external_body]
@@ -2785,7 +2789,7 @@ let ghost os0 = os;
         decreases short@.len() - ci_pos(verif_it_1),
 //@@ loopbody 1
 proof { lemma_cluster_step(&short, ci_pos(verif_it_1) - 1, ix, c); }
-//@@ insert before 1 `if ix == 0`
+//@@ insert after_stmt 1 `let rest =`
 proof { lemma_cluster_rest(&short, ci_pos(verif_it_1), rest); }
 //@@ insert before 1 `return None;`
 proof { assert(items@.skip(old(items).len() as int) =~= seq![Arg::Short(short@[0], false, os0)]);
